@@ -180,6 +180,20 @@ def worker(args) -> Dict[str, Any]:
         if i % 2 == 0:
             mutated, names = textmut.mutate(m.text, rng, 1, donors)
             models.append((f"mmg/{chk.seed}/{i}+{'+'.join(names)}", mutated))
+    # models that only the C# name checks refuse (near-collisions of C21), and their
+    # collision-free controls: the C# verification-for-types step is the only failing one
+    from vf.checks import c21 as collisions
+
+    todo = collisions.scenarios(chk.tier)
+    chk.rng("collisions").shuffle(todo)
+    n_collisions = chk.pick(36, 240)
+    for j, scenario in enumerate(todo[:n_collisions]):
+        if j % n_shards == shard:
+            text, control_text = scenario.texts()
+            at = min(len(models), 2 * (j // n_shards) + 1)
+            models.insert(at, (f"collision/{scenario.kind}/{scenario.pattern}", text))
+            if j % 4 == 0:
+                models.insert(at, (f"collision-control/{scenario.kind}", control_text))
     for idx, (name, text) in enumerate(models):
         if chk.should_stop(budget):
             chk.count("models_skipped_for_budget", len(models) - idx)
@@ -212,6 +226,10 @@ def main(argv) -> int:
             chk.mark_inconclusive(f"component outcome {needed} observed only {kinds.get(needed, 0)} times")
     if sum(v for k, v in kinds.items() if k.startswith("csharp.")) < 3:
         chk.mark_inconclusive("no model failing only in the C# smoke transpilation was observed")
+    if kinds.get("csharp.verify_for_types", 0) < 3:
+        chk.mark_inconclusive(
+            f"models failing only in csharp.verify_for_types observed {kinds.get('csharp.verify_for_types', 0)} times"
+        )
     for counter_name, minimum in mins.items():
         chk.require_min(counter_name, minimum)
     return chk.finish()
